@@ -322,7 +322,10 @@ SHAPES = [("rect", 4.0, 2.0, 1.0, 1.0, 0), ("rect", 4.0, 2.0, 1.0, 1.0, math.pi 
           ("poly", [[0.0, 0.0], [4.0, 2.0], [0.0, 2.0]]),
           ("group", [("rect", 2.0, 2.0, -1.0, 0.0, 0), ("circle", 1.0, 2.5, 2.5)]),
           ("lanelets", [(-2.0, 0.0, 2.0, 2.0), (2.0, 0.0, 5.0, 2.0)]), ("lanelets", [(0.0, -1.0, 3.0, 1.5)]),
-          ("rect", 4.0, 4.0, 1.0, 0.5, math.pi / 4), ("rect", 6.0, 1.0, 0.5, 1.0, -1.2), ("rect", 2.0, 5.0, 0.0, 0.0, math.pi / 2)]
+          ("rect", 4.0, 4.0, 1.0, 0.5, math.pi / 4), ("rect", 6.0, 1.0, 0.5, 1.0, -1.2), ("rect", 2.0, 5.0, 0.0, 0.0, math.pi / 2),
+          # open rings whose last vertex is the only extreme point in some direction ("house" with the apex last; a kite pointing left)
+          ("poly", [[-1.0, -1.0], [3.0, -1.0], [3.0, 1.0], [-1.0, 1.0], [1.0, 4.0]]), ("poly", [[2.0, 0.0], [3.0, 1.5], [2.0, 3.0], [-3.0, 1.5]]),
+          ("group", [("poly", [[0.0, 0.0], [2.0, 0.0], [2.0, 2.0], [0.0, 2.0], [1.0, 3.5]]), ("rect", 1.0, 1.0, 4.0, 0.0, 0)])]
 VELS = [(0.0, 5.0), (-2.0, 2.0), (3.0, 3.0), (0, 5), (-2, 2.5)]
 TIMES = [(2, 5), (0, 0), (3, 3)]
 BASE_S = {"cls": "KSState", "t": 3, "pos": (1.0, 1.0), "ori": 0.1, "vel": 2.5}
@@ -504,6 +507,15 @@ def run_unit(unit, tier):
                     for cls in KIN:
                         check_case([g], dict(s, cls=cls), res, "conjunction:" + "+".join(S))
                 res.states += 1
+        # an orientation interval and a velocity interval with the SAME bounds, and a state whose orientation and velocity are the SAME number:
+        # the orientation is decided modulo 2pi, the velocity is not
+        for lo, hi in ((0.1, 1.0), (-0.5, 0.5), (2.0, 4.0)):
+            for v in (0.5, 0.5 - TWO_PI, 0.5 + TWO_PI, 3.0, 3.0 - TWO_PI, -0.25, TWO_PI - 0.25):
+                g = dict(BASE_G, ori=(lo, hi), vel=(lo, hi))
+                for order in (("ori", "vel"), ("vel", "ori")):
+                    for cls in ("KSState", "STState"):
+                        check_case([g], dict(BASE_S, cls=cls, ori=v, vel=v), res, "conjunction:ori+vel-same-bounds-same-value")
+                        check_case([dict(BASE_G, vel=(lo, hi))], dict(BASE_S, cls=cls, ori=0.0, vel=v), res, "conjunction:vel-after-equal-ori-interval")
         res.sample({"k": "conj"}, 1)
     elif k == "disj":
         core = core_goal_states()
